@@ -17,6 +17,10 @@ variable {K V : Type} (cmp : K → K → Ordering)
 /-- the default ordering is a total order on byte strings -/
 theorem default_cmp_ok : CmpOk byteCmp := byteCmp_ok
 
+/-- so are the other comparators the correspondence harness installs (reverse order, ASCII case
+    folding - the latter identifies different byte strings): the theorems below apply to them -/
+theorem harness_cmps_ok (mode : Nat) : CmpOk (harnessCmp mode) := harnessCmp_ok mode
+
 /-- a fresh table is valid and empty -/
 theorem init_refines : (Tbl.init : Tbl K V).Inv cmp ∧ (Tbl.init : Tbl K V).abs = [] :=
   ⟨Tbl.init_inv cmp, by simp [Tbl.abs, Tbl.init, resetIterator]⟩
